@@ -322,6 +322,15 @@ def _whole_one(args):
     # worker / pickled programs), even runs are sequential (debug) with one simulation
     pool = k % 2 == 1
     cfg = wholerun.make_config(rng, n_sims=2 if pool else 1)
+    if k % 4 == 0 and "AIR" in cfg.get("methods", {}):
+        # stress configuration of the follow-up chain: weekly screening surveys that do not fit into the
+        # crew's day (completed on a later day than started), a reporting delay, a follow-up delay during
+        # which sites are screened again (null re-screenings when an emission has ended), filter recent
+        air = cfg["methods"]["AIR"]
+        air.update({"surveys_per_year": 52, "survey_time": 150, "t_bw_sites": [20.0], "max_workday": 8,
+                    "reporting_delay": 2})
+        air["follow_up"].update({"delay": 10, "redundancy_filter": rng.choice(["recent", "average"]),
+                                 "threshold": 1.0, "proportion": 1.0, "interaction_priority": "threshold"})
     res = wholerun.run_config(cfg, debug=not pool, processes=2 if pool else 1, trace=True)
     try:
         out = {"cfg": cfg, "rc": res.rc if hasattr(res, "rc") else None, "log": (res.log or "")[-2000:]
@@ -348,8 +357,41 @@ def check_trace(cfg, tr):
     in_update = {}         # screening method currently between its deploy and its flagupd
     last_tag = {}          # site -> day of the latest completed survey of a tagging (component-level) method
     has_fuflag = any(ev[0] == "fuflag" for ev in tr["events"])
+    has_meas = any(ev[0] == "sitemeas" for ev in tr["events"])
+    meas = {}              # (method, site) -> [(completion day, measured rate)] of completed screening surveys
+    tags = {}              # site -> days of completed surveys of tagging (component-level) methods
+    stats["multiday_screenings"] = 0
+    stats["history_checks"] = 0
+
+    def processed(method, site, upto):
+        """measurements that were due (completion + reporting delay <= upto) and not stale when due: no
+        tagging survey of the site strictly between the screening's completion and the day it became due
+        (follow-up methods are deployed after the screening methods of the same day)"""
+        out = []
+        for (c, r) in meas.get((method, site), []):
+            due = c + rd[method]
+            if due <= upto and not any(c < t < due for t in tags.get(site, [])):
+                out.append(r)
+        return out
+
+    def filtered(method, rates):
+        f = meths[method]["follow_up"].get("redundancy_filter", "recent")
+        if f == "max":
+            return max(rates)
+        if f == "average":
+            import numpy
+            return float(numpy.average(rates))
+        return rates[-1]
+
     for ev in tr["events"]:
         kind = ev[0]
+        if kind == "sitemeas":
+            _, day, method, site, rate, sday = ev[:6]
+            if method in screening:
+                meas.setdefault((method, site), []).append((day, rate))
+                if sday is not None and sday < day:
+                    stats["multiday_screenings"] += 1
+            continue
         if kind == "survey":
             _, day, method, site = ev[:4]
             complete, in_prog, visited = ev[11], ev[12], ev[13]
@@ -365,10 +407,22 @@ def check_trace(cfg, tr):
                     if info.get("latest") is not None and info["latest"] + rd[info["by"]] > day:
                         viol.append(("C09:whole:before-reporting-delay", "follow-up visit earlier than the reporting "
                                      "delay after the detecting screening survey", {"event": ev, "flag": info}))
+                    by_ = info["by"]
+                    fu_ = meths[by_]["follow_up"]
+                    if has_meas and meths[by_]["deployment_type"] == "mobile" \
+                            and fu_.get("redundancy_filter", "recent") == "recent":
+                        seq = processed(by_, site, day)
+                        stats["history_checks"] += 1
+                        inst_ = fu_.get("instant_threshold")
+                        if seq and not (seq[-1] >= fu_["threshold"] or (inst_ is not None and seq[-1] >= inst_)):
+                            viol.append(("C09:whole:followup-below-threshold", "follow-up survey at a site whose newest "
+                                         "due screening measurement (redundancy filter recent) is below the threshold",
+                                         {"event": ev, "flag": info, "newest_due_measurement": seq[-1]}))
                 if complete:
                     outstanding.pop(site, None)
             if meths.get(method, {}).get("measurement_scale") == "component" and complete:
                 last_tag[site] = day
+                tags.setdefault(site, []).append(day)
         elif kind == "deploy":
             if ev[2] in screening:
                 in_update[ev[2]] = True
@@ -390,6 +444,21 @@ def check_trace(cfg, tr):
                     viol.append(("C09:whole:wrong-follow-up-schedule", "a screening method queued a site on a follow-up "
                                  "schedule that is not the one of its preferred follow-up method", {"event": ev}))
                 info = {"day": day, "by": by, "rate": rate, "latest": latest, "entry": entry}
+                if kind == "fuflag" and has_meas and meths[by]["deployment_type"] == "mobile":
+                    # the rate behind the insertion, recomputed from the screening history itself: the newest
+                    # n due, non-stale measurements of the site (zero measurements included)
+                    n_ = ev[7]
+                    seq = processed(by, site, day)
+                    stats["history_checks"] += 1
+                    fu_ = meths[by]["follow_up"]
+                    if n_ > len(seq) or n_ < 1 or filtered(by, seq[len(seq) - n_:]) != rate:
+                        viol.append(("C09:whole:filtered-rate:history", "the rate behind a follow-up queue insertion is "
+                                     "not the redundancy-filtered rate of the newest due screening measurements of the "
+                                     "site", {"event": ev, "due_measurements": seq[-6:]}))
+                    elif entry == "add_to_survey_queue" and site not in outstanding \
+                            and filtered(by, seq[len(seq) - n_:]) < fu_["threshold"]:
+                        viol.append(("C09:whole:flag-below-threshold", "site flagged below the follow-up threshold",
+                                     {"event": ev, "due_measurements": seq[-6:]}))
                 if latest is not None:
                     if latest + rd[by] > day:
                         viol.append(("C09:whole:before-reporting-delay", "flag earlier than the reporting delay after the "
@@ -427,7 +496,7 @@ def wholerun_oracle(ctx):
     jobs = [(ctx.seed, k) for k in range(n)]
     with concurrent.futures.ThreadPoolExecutor(max_workers=ctx.pick(2, 8)) as ex:
         results = list(ex.map(_whole_one, jobs))
-    tot = {"fu_visits": 0, "flags": 0, "fuq": 0, "snapshots": 0}
+    tot = {"fu_visits": 0, "flags": 0, "fuq": 0, "snapshots": 0, "multiday_screenings": 0, "history_checks": 0}
     for out in results:
         ctx.count("whole:mode:" + ("pool" if out["pool"] else "debug"))
         if not out["traces"]:
@@ -440,7 +509,7 @@ def wholerun_oracle(ctx):
         for tr in out["traces"]:
             viol, stats = check_trace(out["cfg"], tr)
             for k, v in stats.items():
-                tot[k] += v
+                tot[k] = tot.get(k, 0) + v
             for (sig, what, det) in viol:
                 ctx.violate(sig, what, {"whole_run_cfg": out["cfg"], "prog": tr["prog"], "sim": tr["sim"], "detail": det})
             ctx.evaluations += stats["fu_visits"] + stats["flags"] + stats["snapshots"]
@@ -462,6 +531,8 @@ def run(ctx):
                 "histories; non-trivial = at least one site flagged; distinct by (methods, kind, filter/window, "
                 "priority, proportion, delay, reporting delay, instant?, routes and outcomes that occurred)")
     core.lean_stage(ctx, MODULE, FILE, drivers=["drv_followup"])
+    from harness.props import _tie
+    _tie.followup_tie(ctx)  # layer 3: SiteLevelMethod.update_mobile, translated from the current source, is FollowUp.updMobile
     guarded(ctx, "witness", witness_stage)
     guarded(ctx, "shared-state-table", shared_state_table)
     guarded(ctx, "proportion-grid", proportion_grid_stage)
